@@ -53,6 +53,8 @@ def mutations(rng, kb, ver):
         "KS04", "KS03", "KS00", "KS0000", "KS0001", "KS000100", "KS000104", "KS00020004", "KS0002000A", "KS0002FFFF", "KS00FF" + "F" * 510,
         "KS00FF" + "0" * 509, "KS00FF" + "0" * 510, "KS00800" + "1" * 255, "KSFF" + "x" * 10, "KS05é", "KS05\ud800", "K", "KS", "KS0", "KS0G", "KSg0", "\x00\x0004",
         "PB04", "PB08é000", "pb08\ud800000", "Pb05\x00", "pB06\n\t", "PB0C" + "é" * 8, "PB00020010" + "é" * 6, "PB03", "PB", "P", "PB0", "PBFF",
+        # the same id twice, the first occurrence carrying what must be refused
+        "KS05éKS05a", "KS08€000KS080000", "KS05\ud800KS05b", "KS06\x00\x01KS04", "T105\x7fT105x", "KS05ÿKS04", "ks05éKS05a",
         "Kı04", "KS08ab\x7fd", "KS 4", "KS+4", "KS-4", "T104T204T304", "T104T104",
         # malformed length-of-length field of the extended form
         "KS00G1", "KS00zz0004", "KS00 1", "KS00\n1", "KS00é1", "KS00\ud80001", "KS000", "KS00", "KS00-1", "KS00+1", "KS000x",
